@@ -124,6 +124,13 @@ func checkCase(c paramCase) (o pbt.Outcome) {
 	if hasEsc {
 		o.Labels = append(o.Labels, "string_with_backslash")
 	}
+	for i, sg := range segs {
+		if sg.K == sqltok.Code && strings.HasSuffix(text[sg.Start:sg.End], "--") && i+1 < len(segs) {
+			o.Labels = append(o.Labels, "minus_minus_before_"+string(segs[i+1].K))
+		} else if sg.K == sqltok.Code && strings.Contains(text[sg.Start:sg.End], "--") {
+			o.Labels = append(o.Labels, "minus_minus_before_code")
+		}
+	}
 	if c.Complete {
 		o.Labels = append(o.Labels, "complete_statement")
 	} else {
